@@ -71,9 +71,13 @@ CLAIMS.update({
          "Structural: every cancellation poll and every engine answer provably becomes an error return, and no frame above drops it; exhaustive over the 36 polls and the engine call sites of three forks.",
          "The 'identical when undisturbed' clause is only checked structurally (polls are side-effect free).", "DESIGN.md §3 C9,C10,B1"),
 })
-NA = {
- "C19": "every clause is a statement about numeric results over the full uint64 domain (floor square root, power-of-two rounding, slot/time arithmetic with wrap-around, exact acceptance set of a Merkle verifier); a sound static argument needs relational numeric invariants that interval/constant propagation cannot establish without false alarms on a correct implementation, and handing paths to a solver is a different technique family. The one structural fragment (VerifyMerkleBranch branch length >= depth) is checked under C03/C13 (merkle.bound) and does not amount to a claim on C19.",
-}
+CLAIMS.update({
+ "C19": ("template and guard-shape rules for the numeric helpers + canonical-polynomial comparison of the conversion/churn/committee formulas with the spec's",
+         "Structural: the integer square root has the spec's UINT64_MAX special case ahead of its first estimate and is the spec's Newton iteration; the power-of-two helpers, the Merkle fold (levels, side selection, final comparison) and the wrap-around tests of the helpers that have an error result have the required shape; slot/epoch/time, churn and committee-count formulas equal the spec's in canonical form. Necessary conditions of exactness; one genuine defect (divide by zero at 2^64-1) was found this way and repaired.",
+         "Convergence/exactness of the iteration over all 2^64 inputs, wrap-around in helpers without an error result, and the exact acceptance set of the Merkle verifier are numeric facts and are not decided.",
+         "DESIGN.md §10.9"),
+})
+NA = {}
 ALL = ["C%02d" % i for i in range(1, 21)]
 PENDING_REASON = "check not built yet in this round (planned rules: DESIGN.md §4); not claimed until its rules exist and are silent/triaged on the unchanged tree"
 def main():
@@ -110,7 +114,7 @@ def main():
             "name": "zrntlint",
             "path": "/verif/zrntlint",
             "serves_properties": sorted(CLAIMS),
-            "kind_free_text": "repository-specific static analyser (Go; go/packages + go/types + go/cfg + go/ssa + VTA call graph, yaml.v3 for embedded configs); loads /repo as data on every run, never executes it",
+            "kind_free_text": "repository-specific static analyser (Go; go/packages + go/types + go/cfg, yaml.v3 for embedded configs); loads /repo as data on every run, never executes it",
         }],
         "checks": checks,
         "not_applicable": na,
